@@ -702,7 +702,7 @@ def lnodes(t, s, res, shown=frozenset(), touched=frozenset()):
         active = set().union(*[readers(k, s) for k in t[3]]) if t[3] else set()
         fallback = [[]] if t[2] & 2 else [[[0, -t[1]]]]
         children = _prod([lnodes(k, s, res, shown, touched) for k in t[3]])
-        if t[2] & 1 and t[1] in _MAYBE_SHOWN:
+        if t[1] in _MAYBE_SHOWN:
             # a Transition created in the very step that re-triggers a resource it reads: built before the
             # refetch task started it saw a loaded resource (children shown, kept during the load), built after
             # it it is a first load (fallback): both are the components' behaviour, the schedule decides
@@ -713,6 +713,9 @@ def lnodes(t, s, res, shown=frozenset(), touched=frozenset()):
             return fallback
         if any(res[r][1] and (t[1], r) in touched for r in range(len(res))):
             # readers that registered during the load still running have been unmounted since
+            if t[2] & 1:
+                # a Transition that did show its children at such a point keeps them for the rest of the load
+                _AMBIG.add(t[1])
             return children + fallback
         return children
     if op == 6:
@@ -735,6 +738,7 @@ def lnodes(t, s, res, shown=frozenset(), touched=frozenset()):
 
 
 _MAYBE_SHOWN = set()
+_AMBIG = set()
 
 
 def boundary_readers(t, out):
@@ -936,6 +940,8 @@ def oracle_leptos(item, impl):
     _MAYBE_SHOWN.clear()
     breaders = {}
     boundary_readers(tree, breaders)
+    prev_active = {}
+    active_transitions(tree, s, prev_active)
 
     def start_fetch(r, chained=False):
         # (a fetch that restarts at once because its source changed meanwhile keeps the resource loading without a
@@ -1015,6 +1021,13 @@ def oracle_leptos(item, impl):
             for l in gone:
                 if any(rd(sources[r]) & written for r in breaders.get(l, ())):
                     _MAYBE_SHOWN.add(l)
+            # likewise a boundary (of either kind) that is MOUNTED by this step (a <Show> / <For> / ErrorBoundary
+            # switching to it) while the same writes re-trigger a resource it reads
+            act_now = {}
+            active_transitions(tree, s, act_now)
+            for l in act_now:
+                if l not in prev_active and any(rd(sources[r]) & written for r in breaders.get(l, ())):
+                    _MAYBE_SHOWN.add(l)
             for reg in (touched, reg_next):
                 for (l, r) in list(reg):
                     if l in gone:
@@ -1034,9 +1047,13 @@ def oracle_leptos(item, impl):
             if not any(res[r][1] is not None for r in breaders.get(l, ())):
                 _MAYBE_SHOWN.discard(l)      # the racing load is over: the children are on screen either way
                 shown.add(l)
+        prev_active = {}
+        active_transitions(tree, s, prev_active)
         got = [plain(x) for x in entry[1]]
         state = [(v, fl is not None, settled_value[r]) for r, (v, fl, _) in enumerate(res)]
+        _AMBIG.clear()
         want = lnodes(tree, s, state, frozenset(shown), frozenset(touched))
+        _MAYBE_SHOWN.update(_AMBIG)
         pend = any(x[1] for x in state)
         if got not in want:
             return ("idle point %d (%s): the mounted DOM is not what the components show for the current signal "
